@@ -381,14 +381,14 @@ def generate(ctx):
         for j in range(3):
             yield {"k": "filter", "adapter": adapter, "seq": subseed("c10", ctx.seed, ctx.shard, "flatseq", adapter, j), "shape": "flat",
                    "es": subseed("c10", ctx.seed, ctx.shard, "flatexpr", adapter, j), "force": "data"}
-    for i in range(ctx.scale(90, 1500)):
+    for i in range(ctx.scale(90, 1000)):
         adapter = adapters[(i + ctx.shard) % len(adapters)]
         yield {"k": "filter", "adapter": adapter, "seq": subseed("c10", ctx.seed, ctx.shard, "seq", i),
                "es": subseed("c10", ctx.seed, ctx.shard, "expr", i)}
     for i in range(ctx.scale(1, 4)):
         yield {"k": "cold", "pool": subseed("c10", ctx.seed, ctx.shard, "coldpool", i), "es": subseed("c10", ctx.seed, ctx.shard, "cold", i),
                "n": ctx.scale(24, 60)}
-    for i in range(ctx.scale(60, 1500)):
+    for i in range(ctx.scale(60, 1000)):
         yield {"k": "purity", "pool": subseed("c10", ctx.seed, ctx.shard, "pool", i // 10), "es": subseed("c10", ctx.seed, ctx.shard, "pexpr", i),
                "engine": ("interpreted", "compiled")[i % 2]}
 
